@@ -173,13 +173,20 @@ def gram(S):
     return d
 
 
-def matrix_of(op, dom, ran, exact=True):
+def matrix_of(op, dom, ran, exact=True, inplace=False):
     """real-coordinate matrix as list of columns; dom/ran are the spaces whose coordinates are
-    used (elements of `dom` are fed to op)."""
+    used (elements of `dom` are fed to op). `inplace`: evaluate as op(x, out=y) into an
+    output element prefilled with junk (the result must not depend on it)."""
     cols = []
     for a in range(rdim(dom)):
         x = from_flat(dom, basis_vec(dom, a))
-        y = op(x)
+        if inplace:
+            y = from_flat(ran, np.full(sdim(ran), 7.0 + (3.0j if is_cplx(ran) else 0.0)))
+            r = op(x, out=y)
+            if r is not None and r is not y:
+                raise OpFail('op(x, out=y) returned a different object than y')
+        else:
+            y = op(x)
         if not is_field(ran) and y not in ran:
             raise OpFail('result {!r} is not an element of {!r}'.format(
                 getattr(y, 'space', type(y).__name__), ran))
@@ -230,6 +237,27 @@ def oracle(A, approx=False):
     except ValueError as e:
         problems.append(('value', str(e)[:200]))
         return 'ok', problems, info
+    # the same operators evaluated IN PLACE must give the same matrices (solvers and
+    # matrix_representation call op(x, out=...)); a difference is reported as the adjoint
+    # identity failing for the in-place evaluation
+    for nm, op_, d_, r_, M_ in (('A', A, dom, ran, MA), ('A.adjoint', B, ran, dom, MB)):
+        if is_field(r_):
+            continue
+        try:
+            Mi = guarded(lambda: matrix_of(op_, d_, r_, exact, inplace=True), nm + '(x, out=y)')
+        except OpFail as e:
+            problems.append(('inplace-raises', str(e)))
+            continue
+        dif = [(a, b) for a in range(len(M_)) for b in range(len(M_[a])) if Mi[a][b] != M_[a][b]
+               and abs(float(Mi[a][b]) - float(M_[a][b])) > (1e-9 if approx else 1e-11) * max(
+                   1.0, abs(float(M_[a][b])))]
+        if dif:
+            a, b = dif[0]
+            problems.append(('identity-inplace',
+                             '{nm}(e_{a}, out=z) gives entry {b} = {v} but {nm}(e_{a}) gives {w} '
+                             '({n} entries differ): the adjoint identity fails for the in-place '
+                             'evaluation'.format(nm=nm, a=a, b=b, v=_fstr(Mi[a][b]),
+                                                 w=_fstr(M_[a][b]), n=len(dif))))
     nd, nr = len(Gd), len(Gr)
     scale = max([1.0] + [abs(float(v)) for c in MA for v in c] +
                 [abs(float(v)) for c in MB for v in c]) * max(
@@ -474,6 +502,8 @@ def zoo_cases(ctx, rng=None):
         yield c
     for c in functional_cases(ctx, rng, mk):
         yield c
+    for c in expr_cases(ctx, rng, mk):
+        yield c
 
 
 def sclass(s):
@@ -542,6 +572,13 @@ def matrix_cases(ctx, rng, mk):
         domd = odl.uniform_discr([0, 0], [1, 3], (2, 3))
         yield mk('MatrixOperator', 'domw=discr ndim=2 axis={}'.format(axis),
                  lambda M=M, domd=domd, axis=axis: odl.MatrixOperator(M, domain=domd, axis=axis))
+    M = rand_mat(rng, 2, 2)
+    yield mk('MatrixOperator', 'domw=array ndim=2 axis=0',
+             lambda M=M: odl.MatrixOperator(M, domain=odl.rn((2, 3), weighting=np.array(
+                 [[1.0, 2.0, 4.0], [2.0, 1.0, 0.5]])), axis=0))
+    yield mk('MatrixOperator', 'domw=const ranw=const ndim=2 axis=1 explicit-range unequal',
+             lambda M=M: odl.MatrixOperator(M, domain=odl.rn((3, 2), weighting=2.0),
+                                            range=odl.rn((3, 2), weighting=0.5), axis=1))
     if not quick:
         import scipy.sparse
         M = rand_mat(rng, 3, 3)
@@ -551,6 +588,10 @@ def matrix_cases(ctx, rng, mk):
         yield mk('MatrixOperator', 'sparse domw=const shape=3x3',
                  lambda M=M: odl.MatrixOperator(scipy.sparse.csr_matrix(M),
                                                 domain=odl.rn(3, weighting=2.0)))
+        yield mk('MatrixOperator', 'sparse domw=array ranw=const shape=3x3',
+                 lambda M=M: odl.MatrixOperator(scipy.sparse.csr_matrix(M),
+                                                domain=odl.rn(3, weighting=[1.0, 2.0, 4.0]),
+                                                range=odl.rn(3, weighting=0.5)))
 
 
 def power_spaces(ctx):
@@ -571,7 +612,8 @@ def pointwise_cases(ctx, rng, mk):
     odl = odl_()
     for pw, X, d, V in power_spaces(ctx):
         G = rand_el(rng, V)
-        for ow, wt in (('default', None), ('const', 0.5), ('array', [2.0, 1.0, 0.25][:d])):
+        for ow, wt in (('default', None), ('const', 0.5), ('array', [2.0, 1.0, 0.25][:d]),
+                       ('unit-const', 1.0), ('unit-array', [1.0, 1.0, 1.0][:d])):
             opts = 'base={} d={} pspace-w={} op-w={}'.format(sp_sig(X), d, pw, ow)
             yield mk('PointwiseInner', opts,
                      lambda V=V, G=G, wt=wt: odl.PointwiseInner(V, G, weighting=wt),
@@ -583,6 +625,8 @@ def pointwise_cases(ctx, rng, mk):
                  lambda V=V: odl.PointwiseSum(V), ('pwinner', V, X, V.one(), None))
         yield mk('PointwiseSum', 'base={} d={} pspace-w={} op-w=const'.format(sp_sig(X), d, pw),
                  lambda V=V: odl.PointwiseSum(V, weighting=4.0), ('pwinner', V, X, V.one(), 4.0))
+        yield mk('PointwiseSum', 'base={} d={} pspace-w={} op-w=unit-const'.format(sp_sig(X), d, pw),
+                 lambda V=V: odl.PointwiseSum(V, weighting=1.0), ('pwinner', V, X, V.one(), 1.0))
     X = odl.rn(2)
     G = rand_el(rng, odl.ProductSpace(X, 2))
     yield mk('PointwiseInnerAdjoint', 'base=rT1 d=2 default-range op-w=array',
@@ -837,6 +881,71 @@ def functional_cases(ctx, rng, mk):
              lambda: 2.0 * sol.ScalingFunctional(R, 2.0))
 
 
+def expr_cases(ctx, rng, mk):
+    """every expression class of operator.py x field configuration of the operand
+    (real->real, complex->complex, real->complex, complex->real) x real / genuinely complex
+    scalars and vectors wherever the constructor admits them"""
+    odl = odl_()
+    from odl.operator import operator as opm
+    r3, c3 = odl.rn(3), odl.cn(3)
+    r3w, c3w = odl.rn(3, weighting=2.0), odl.cn(3, weighting=2.0)
+    d3 = odl.uniform_discr(0, 1.5, 3)
+    cd3 = odl.uniform_discr(0, 1.5, 3, dtype='complex128')
+
+    def operand(cfg, R, C):
+        if cfg == 'rr':
+            M = rand_mat(rng, 3, 3)
+            if wclass(R)[0] == 'const' and not is_discr(R):
+                return odl.MatrixOperator(M, domain=R, range=R), ('matrix', M, R, R)
+            v = rand_el(rng, R, nz=True)
+            return odl.MultiplyOperator(v), ('multiply', R, R, v)
+        if cfg == 'cc':
+            M = rand_mat(rng, 3, 3, True)
+            if wclass(C)[0] == 'const' and not is_discr(C):
+                return odl.MatrixOperator(M, domain=C, range=C), ('matrix', M, C, C)
+            v = rand_el(rng, C, nz=True)
+            return odl.MultiplyOperator(v), ('multiply', C, C, v)
+        if cfg == 'rc':
+            s = rng.choice([1 + 2j, 1j, 2 - 1j])
+            return odl.ComplexEmbedding(R, s), ('cembed', R, s)
+        if rng.random() < 0.5:
+            return odl.RealPart(C), ('realpart', C)
+        return odl.ImagPart(C), ('imagpart', C)
+
+    for tag, R, C in (('T', r3, c3), ('Tw', r3w, c3w), ('D', d3, cd3)):
+        for cfg in ('rr', 'cc', 'rc', 'cr'):
+            A, sA = operand(cfg, R, C)
+            dom, ran = A.domain, A.range
+            pre = 'operand={}/{}'.format(cfg, tag)
+            # vectors: genuinely complex wherever the space is complex
+            v_ran, v_dom = rand_el(rng, ran, nz=True), rand_el(rng, dom, nz=True)
+            yield mk('OperatorLeftVectorMult', pre + ' vector={}'.format('cplx' if is_cplx(ran) else 'real'),
+                     lambda A=A, v=v_ran: opm.OperatorLeftVectorMult(A, v), ('lvec', sA, v_ran, ran))
+            yield mk('OperatorRightVectorMult', pre + ' vector={}'.format('cplx' if is_cplx(dom) else 'real'),
+                     lambda A=A, v=v_dom: opm.OperatorRightVectorMult(A, v), ('rvec', sA, v_dom, dom))
+            scalars = [('real', -0.5)] + ([('cplx', 1 + 2j)] if cfg == 'cc' else [])
+            for sn, sc in scalars:
+                yield mk('OperatorLeftScalarMult', pre + ' scalar=' + sn,
+                         lambda A=A, sc=sc: opm.OperatorLeftScalarMult(A, sc), ('lsc', sA, sc))
+                yield mk('OperatorRightScalarMult', pre + ' scalar=' + sn,
+                         lambda A=A, sc=sc: opm.OperatorRightScalarMult(A, sc), ('rsc', sA, sc))
+            B, sB = operand(cfg, R, C)
+            yield mk('OperatorSum', pre, lambda A=A, B=B: opm.OperatorSum(A, B), ('sum', sA, sB))
+            for cfg2 in ('rr', 'cc', 'rc', 'cr'):
+                if cfg2[1] != cfg[0]:
+                    continue
+                B2, sB2 = operand(cfg2, R, C)
+                yield mk('OperatorComp', 'left={}/{} right={}'.format(cfg, tag, cfg2),
+                         lambda A=A, B2=B2: opm.OperatorComp(A, B2), ('comp', sA, sB2))
+            # FunctionalLeftVectorMult(<., w> o A, u): dom -> ran
+            w = rand_el(rng, ran, nz=True)
+            u = rand_el(rng, ran, nz=True)
+            yield mk('FunctionalLeftVectorMult', pre + ' composed',
+                     lambda A=A, w=w, u=u: opm.FunctionalLeftVectorMult(
+                         opm.OperatorComp(odl.InnerProductOperator(w), A), u),
+                     ('flv', ('comp', ('inner', ran, w), sA), u, ran))
+
+
 def introspect():
     """All Operator subclasses reachable from the odl namespaces that define .adjoint."""
     odl = odl_()
@@ -975,8 +1084,6 @@ def emit(tb, spec):
             t.append('pwia;{};{};{};{};{}'.format(tb.sp(X), tb.sp(V), cvec(V, G), core.fl(w), core.fl(v)))
     elif k in ('sampling', 'wsum'):
         _, S, pts, variant = spec
-        if is_cplx(S):
-            raise NotModelled('sampling on complex spaces (np.bincount drops imaginary parts)')
         if S.ndim != 1:
             raise NotModelled('sampling in > 1 dimensions')
         idx = [int(p) for p in np.atleast_1d(np.asarray(pts, dtype=int)).ravel()]
@@ -993,11 +1100,10 @@ def emit(tb, spec):
         if order != 'C' and S.ndim > 1:
             raise NotModelled('flattening in F order')
         R = odl.tensor_space(S.size, dtype=S.dtype)
-        cv = getattr(S, 'cell_volume', 1.0)
         if k == 'flatten':
-            t.append('flat;{};{};{}'.format(tb.sp(S), tb.sp(R), fs(cv)))
+            t.append('flat;{};{}'.format(tb.sp(S), tb.sp(R)))
         else:
-            t.append('flatinv;{};{};{}'.format(tb.sp(R), tb.sp(S), fs(cv)))
+            t.append('flatinv;{};{}'.format(tb.sp(R), tb.sp(S)))
     elif k in ('proj', 'projadj'):
         _, P, idx = spec
         if isinstance(idx, slice):
@@ -1088,15 +1194,7 @@ def compare_model(ctx, desc, A, status, info, ans):
         if status == 'ok':
             ctx.disagree(desc, 'adjoint returned', 'model: adj = none')
         return
-    mixed = desc.get('mixed', False)
     if status != 'ok':
-        if mixed and status in ('noadjoint:OpTypeError', 'noadjoint:ValueError',
-                                'noadjoint:TypeError'):
-            # consequence of the recorded finding: RealPart/ImagPart(C).adjoint has domain C, so
-            # constructing the adjoint of a composition/sum/block containing it raises; the
-            # model does not reproduce constructor type checks inside `.adjoint`
-            ctx.hit('skipped/adjoint-construction-raises(RealPart-domain finding)')
-            return
         ctx.disagree(desc, status, 'model: adjoint exists')
         return
     if 'B' in info:
@@ -1104,7 +1202,7 @@ def compare_model(ctx, desc, A, status, info, ans):
             ctx.disagree(desc, 'matrix of A.adjoint = {}'.format(_mstr(info['B'])),
                          'matrix of run (adj t) = {}'.format(fields['B'][:400]))
             return
-    if 'adjsig' in info and not mixed and (fields.get('ad'), fields.get('ar')) != info['adjsig']:
+    if 'adjsig' in info and (fields.get('ad'), fields.get('ar')) != info['adjsig']:
         ctx.disagree(desc, 'adjoint spaces {}'.format(info['adjsig']),
                      'model adjoint spaces {}'.format((fields.get('ad'), fields.get('ar'))))
         return
@@ -1112,8 +1210,6 @@ def compare_model(ctx, desc, A, status, info, ans):
         if parse_cols(fields['AA'], is_cplx(ran)) != info['C']:
             ctx.disagree(desc, 'matrix of A.adjoint.adjoint = {}'.format(_mstr(info['C'])),
                          'matrix of run (adj (adj t)) = {}'.format(fields['AA'][:400]))
-    elif mixed:
-        ctx.hit('skipped/adjoint-adjoint-construction-raises(RealPart-domain finding)')
     elif ('C' in info) != (fields.get('AA') not in (None, 'noadj')):
         ctx.disagree(desc, 'A.adjoint.adjoint {}'.format('ok' if 'C' in info else 'raises'),
                      'model adj (adj t): {}'.format(fields.get('AA', '')[:40]))
@@ -1142,11 +1238,16 @@ def tree_spaces():
 
 
 def wclass(S):
-    """spaces between which MatrixOperator.adjoint is correct share this class"""
+    """weighting class of a tree space"""
     w = S.weighting
     if hasattr(w, 'const'):
         return ('const', float(w.const))
     return ('other', repr(S))
+
+
+def mat_ok(dom, ran):
+    """MatrixOperator(M, domain=dom, range=ran) is constructible and modelled (1-d, same field)"""
+    return is_cplx(dom) == is_cplx(ran) and dom.ndim == 1 and ran.ndim == 1
 
 
 def pick_space(rng, sps, like, same_field=False):
@@ -1154,8 +1255,7 @@ def pick_space(rng, sps, like, same_field=False):
     vals = list(sps.values())
     r = rng.random()
     if r < 0.7:
-        c = [s for s in vals if is_cplx(s) == is_cplx(like) and wclass(s) == wclass(like) and
-             wclass(s)[0] == 'const']
+        c = [s for s in vals if is_cplx(s) == is_cplx(like)]
         if c:
             return rng.choice(c)
         return like
@@ -1193,9 +1293,7 @@ def gen_tree(rng, sps, dom, ran, depth, allow_cplx_scalar=True):
             if k == 2:
                 return odl.IdentityOperator(dom), ('scaling', dom, 1.0), False
             M = rand_mat(rng, sdim(ran), sdim(dom), cd and rng.random() < 0.6)
-            if wclass(dom)[0] == 'const':
-                return odl.MatrixOperator(M, domain=dom, range=ran), ('matrix', M, dom, ran), False
-            return odl.ZeroOperator(dom), ('zero', dom, dom), False
+            return odl.MatrixOperator(M, domain=dom, range=ran), ('matrix', M, dom, ran), False
         if cd and not cr and dom.real_space == ran:
             if rng.random() < 0.5:
                 return odl.RealPart(dom), ('realpart', dom), True
@@ -1203,7 +1301,7 @@ def gen_tree(rng, sps, dom, ran, depth, allow_cplx_scalar=True):
         if cr and not cd and dom.complex_space == ran:
             s = rng.choice([1.0, 1j, 1 + 2j, -0.5, 2 - 1j])
             return odl.ComplexEmbedding(dom, s), ('cembed', dom, s), True
-        if cd == cr and wclass(dom) == wclass(ran) and wclass(dom)[0] == 'const':
+        if mat_ok(dom, ran) and rng.random() < 0.9:
             M = rand_mat(rng, sdim(ran), sdim(dom), cd and rng.random() < 0.6)
             return odl.MatrixOperator(M, domain=dom, range=ran), ('matrix', M, dom, ran), False
         if cd == cr or rng.random() < 0.3:
